@@ -1,4 +1,4 @@
-(* C09 (extension mech)  Letting time pass in one step or in several gives the same ticks and status -- for the job-specific classes of Model/SpecMech.v (mechanic.py, soulmaster.py, dualblade.py, thief.py UltimateDarkSight, windbreaker.py).  Times are integer ticks.  Entity level: C09_mech_lastingstack (LastingStack.elapse is exactly additive) and C09_mech_dynamic_periodic (DynamicIntervalPeriodic.resolving: the yielded intercepter counts of a then b are those of a+b, same time_left, same state up to the counter/count of a schedule that is over, which nothing reads before use resets them; under DP.wf: interval > 0, penalty >= 0, count >= 0, max >= 0, and the counter is positive once time_left is negative).  Component level: C09_mech_elapse_chunk: for the 15 modelled classes with an elapse reducer other than FullMetalBarrageComponent (RobotSummon, RobotSetupBuff, HommingMissile, MultipleOption, MecaCarrier, Elysion, CosmicBurst, CosmicShower, Cosmos, FlareSlash, FinalCut, BladeStorm, UltimateDarkSight, KarmaBlade, HowlingGale), every well-formed state (xwf) and a, b >= 0: the damage events of elapse a then elapse b are a permutation of those of elapse a+b (same damage+modifier codes, same hits) and the final states agree up to dead interval counters (xnorm); bound entities are part of the state and are returned unchanged.  C09_mech_elapse_chunk_views: hence validity, running, buff and keydown views agree.  C09_mech_wf_invariant: xwf is preserved by EVERY reducer of every modelled class (under the parameter hypotheses xwf_par: non-negative payload times, positive pause time, positive initial counters, non-negative prepare delay; Cosmos: the shortened interval stays positive; MecaCarrier: start count and duration non-negative), so the theorems apply in every reachable state.  FullMetalBarrageComponent: C09_mech_barrage_refuted: the penalty_lasting entity is NOT chunk-independent (it is re-armed to the full penalty at the END of the elapse call in which the key-down ran out, not at the moment it ran out): witness with a=100, b=900; C09_mech_barrage_partial: everything else is: damage events a permutation, key-down/cooldown state equal, validity and keydown views equal, the whole state equal unless the key-down ended within the first chunk, in which case penalty time_left is penalty-b after the two steps and penalty after the single step.  C09_mech_meca_nonvacuous, C09_mech_barrage_witness: concrete runs. *)
+(* C09 (extension mech)  Letting time pass in one step or in several gives the same ticks and status -- for the job-specific classes of Model/SpecMech.v (mechanic.py, soulmaster.py, dualblade.py, thief.py UltimateDarkSight, windbreaker.py).  Times are integer ticks.  Entity level: C09_mech_lastingstack (LastingStack.elapse is exactly additive) and C09_mech_dynamic_periodic (DynamicIntervalPeriodic.resolving: the yielded intercepter counts of a then b are those of a+b, same time_left, same state up to the counter/count of a schedule that is over, which nothing reads before use resets them; under DP.wf: interval > 0, penalty >= 0, count >= 0, max >= 0, and the counter is positive once time_left is negative).  Component level: C09_mech_elapse_chunk: for the 16 modelled classes with an elapse reducer (RobotSummon, RobotSetupBuff, HommingMissile, FullMetalBarrage (after the repair f0eb2ac of a defect this check found), MultipleOption, MecaCarrier, Elysion, CosmicBurst, CosmicShower, Cosmos, FlareSlash, FinalCut, BladeStorm, UltimateDarkSight, KarmaBlade, HowlingGale), every well-formed state (xwf) and a, b >= 0: the damage events of elapse a then elapse b are a permutation of those of elapse a+b (same damage+modifier codes, same hits) and the final states agree up to dead interval counters (xnorm); bound entities are part of the state and are returned unchanged.  C09_mech_elapse_chunk_views: hence validity, running, buff and keydown views agree.  C09_mech_wf_invariant: xwf is preserved by EVERY reducer of every modelled class (under the parameter hypotheses xwf_par: non-negative payload times, positive pause time, positive initial counters, non-negative prepare delay; Cosmos: the shortened interval stays positive; MecaCarrier: start count and duration non-negative), so the theorems apply in every reachable state.  FullMetalBarrageComponent: before the repair the penalty_lasting entity was re-armed to the full penalty at the END of the elapse call in which the key-down ran out; C09_mech_barrage_repaired: on the witness of that former finding (a=100, b=900) both paths now leave penalty 1100/2000.  C09_mech_meca_nonvacuous: a concrete run. *)
 From Coq Require Import ZArith List Bool Permutation. From V.Model Require Import Comp SpecMech. From V.Proofs Require Import CompReject CompViews CompChunk SpecMechReject SpecMechViews SpecMechDP SpecMechChunk SpecMechWf.
 
 Theorem C09_mech_lastingstack :
@@ -57,32 +57,11 @@ Theorem C09_mech_wf_invariant :
         xreduce_spec c m p t s = Some (s', es) -> xwf s' /\ u_ic1 (x_u s') = u_ic1 (x_u s).
 Proof. exact @xwf_preserved. Qed.
 
-Theorem C09_mech_barrage_partial :
-  forall (p : xpar) (a b : Z) (s s1 : xst) (e1 : list ev) (s2 : xst) 
-          (e2 : list ev) (s3 : xst) (e3 : list ev),
-        xwf s ->
-        0 <= a ->
-        0 <= b ->
-        xreduce_spec FullMetalBarrage XElapse p a s = Some (s1, e1) ->
-        xreduce_spec FullMetalBarrage XElapse p b s1 = Some (s2, e2) ->
-        xreduce_spec FullMetalBarrage XElapse p (a + b) s = Some (s3, e3) ->
-        set_l2 s2 (0, 0) = set_l2 s3 (0, 0) /\
-        Permutation (dealts (e1 ++ e2)) (dealts e3) /\
-        (kd_ends (u_kd (x_u s)) a = false -> s2 = s3) /\
-        (kd_ends (u_kd (x_u s)) a = true ->
-         x_l2 s2 = (xp_t1 p - b, xp_t1 p) /\ x_l2 s3 = (xp_t1 p, xp_t1 p)) /\
-        xview_validity FullMetalBarrage p s2 = xview_validity FullMetalBarrage p s3 /\
-        xview_keydown FullMetalBarrage s2 = xview_keydown FullMetalBarrage s3.
-Proof. exact @barrage_chunk_partial. Qed.
-
-Theorem C09_mech_barrage_refuted :
-  exists (p : xpar) (s : xst) (a b : Z),
-          xwf s /\
-          0 <= a /\
-          0 <= b /\
-          x_l2 (fst (fmb_elapse p b (fst (fmb_elapse p a s)))) <>
-          x_l2 (fst (fmb_elapse p (a + b) s)).
-Proof. exact @barrage_chunk_refuted. Qed.
+Theorem C09_mech_barrage_repaired :
+  xwf fmb_state /\
+        x_l2 (fst (fmb_elapse fmb_par 900 (fst (fmb_elapse fmb_par 100 fmb_state)))) = (1100, 2000) /\
+        x_l2 (fst (fmb_elapse fmb_par 1000 fmb_state)) = (1100, 2000).
+Proof. exact @barrage_chunk_repaired. Qed.
 
 Theorem C09_mech_meca_nonvacuous :
   xwf mc_state /\
@@ -97,20 +76,11 @@ Theorem C09_mech_meca_nonvacuous :
         dealts (snd (mc_elapse DP.resolving mc_par 45 mc_state)) = repeat (EDealt 7 1) 9.
 Proof. exact @meca_nonvacuous. Qed.
 
-Theorem C09_mech_barrage_witness :
-  x_l2 (fst (fmb_elapse fmb_par 900 (fst (fmb_elapse fmb_par 100 fmb_state)))) = (1100, 2000) /\
-        x_l2 (fst (fmb_elapse fmb_par 1000 fmb_state)) = (2000, 2000) /\
-        x_u (fst (fmb_elapse fmb_par 900 (fst (fmb_elapse fmb_par 100 fmb_state)))) =
-        x_u (fst (fmb_elapse fmb_par 1000 fmb_state)).
-Proof. exact @barrage_witness. Qed.
-
 Print Assumptions C09_mech_lastingstack.
 Print Assumptions C09_mech_dynamic_periodic.
 Print Assumptions C09_mech_dynamic_periodic_wf.
 Print Assumptions C09_mech_elapse_chunk.
 Print Assumptions C09_mech_elapse_chunk_views.
 Print Assumptions C09_mech_wf_invariant.
-Print Assumptions C09_mech_barrage_partial.
-Print Assumptions C09_mech_barrage_refuted.
+Print Assumptions C09_mech_barrage_repaired.
 Print Assumptions C09_mech_meca_nonvacuous.
-Print Assumptions C09_mech_barrage_witness.
